@@ -1,6 +1,6 @@
 (** C03: exhaustive rejection table of RayGenerator.generate_rays (regenerated kernel k_rg_generate).
     The table is over the finite configuration domain {finite, infinite object} x {angle, object_height} x
-    {telecentric or not} x {EPD, imageFNO, objectNA} (24 cells) x polarization handling; every numeric
+    {telecentric or not} x {EPD, imageFNO, objectNA} (24 cells, 9 of them valid) x polarization handling; every numeric
     input is universally quantified and the arithmetic signature is arbitrary, so the statement holds for exact
     reals and for binary64 alike. *)
 From Coq Require Import ZArith List Bool String.
@@ -10,13 +10,13 @@ Local Open Scope string_scope.
 
 Section Table.
   Variable O : Ops.
-  Variables Hx Hy Px Py w v0 v1 mf EPL EPD objR objk objz apv : T O.
+  Variables Hx Hy Px Py w v0 v1 mf EPL EPD objR objk objz n0 apv : T O.
   Variable pos : list (T O).
 
   Notation gen inf ft tele ap pol upol :=
-    (k_rg_generate O Hx Hy Px Py w v0 v1 mf inf ft tele EPL EPD pos objR objk objz ap apv pol upol).
+    (k_rg_generate O Hx Hy Px Py w v0 v1 mf inf ft tele EPL EPD pos objR objk objz ap n0 apv pol upol).
 
-  (** every one of the 24 cells: the call raises exactly when one of the five rules (or the polarization rule) applies *)
+  (** every one of the 24 cells: the call raises exactly when one of the six rules (or the polarization rule) applies *)
   Theorem rejection_table :
     forall (inf tele upol : bool) (ft ap pol : string),
       In ft field_types -> In ap aperture_types ->
@@ -42,11 +42,11 @@ Section Table.
     unfold k_rg_generate, k_rg_origins; rewrite ?Ha, ?Hh; reflexivity.
   Qed.
 
-  (** the valid cells are exactly ten *)
+  (** the valid cells are exactly nine *)
   Definition cells : list (bool * string * bool * string) :=
     flat_map (fun inf => flat_map (fun ft => flat_map (fun tele => map (fun ap => (inf, ft, tele, ap)) aperture_types)
       [false; true]) field_types) [false; true].
   Theorem cell_count : List.length cells = 24%nat /\
-    List.length (filter (fun c => match c with (inf, ft, tele, ap) => negb (rejected inf ft tele ap) end) cells) = 10%nat.
+    List.length (filter (fun c => match c with (inf, ft, tele, ap) => negb (rejected inf ft tele ap) end) cells) = 9%nat.
   Proof. split; vm_compute; reflexivity. Qed.
 End Table.
